@@ -43,6 +43,14 @@ func TestReferenceExamples(t *testing.T) {
 	if a, b := pg("[2,2] #0.pad=3px", 45, std), pg("[2,2] #0.pad=3px", 45, variant{startRight: true, lenientTop: true}); a == b {
 		t.Errorf("lenient variant should differ: %q", a)
 	}
+	// a forced break inside a break-inside:avoid wrapper that does not fit: both readings
+	if a, b := pg("2,[2,2] #1.inside=avoid #2.after=page", 40, std), pg("2,[2,2] #1.inside=avoid #2.after=page", 40, variant{startRight: true, avoidUnit: true}); a != "R a0@0 a1@10 b0@20 b1@30 | L c0@0 c1@10" || b != "R a0@0 a1@10 | L b0@0 b1@10 | R c0@0 c1@10" {
+		t.Errorf("avoid unit: %q / %q", a, b)
+	}
+	// ... but when the whole wrapper fits there is only one reading
+	if a, b := pg("2,[2,2] #1.inside=avoid #2.after=page", 60, std), pg("2,[2,2] #1.inside=avoid #2.after=page", 60, variant{startRight: true, avoidUnit: true}); a != b {
+		t.Errorf("avoid unit (fits): %q / %q", a, b)
+	}
 	// all-distinct sequences
 	if n := len(ruleSequences(13, 3)); n != 1+13+13*12+13*12*11 {
 		t.Errorf("sequences: %d", n)
